@@ -664,6 +664,15 @@ def check_async_driver(ck: Checker, rid: str):
     ck.need(n_ob >= 2, f'only {n_ob} async producers found')
 
 
+def check_no_prefetch(ck: Checker, rid: str):
+    f = ck.repo.cls(STREAMER_ASYNC, 'AsyncIter').method('__aiter__')
+    calls = [n for n in walk_shallow_func(f.node) if isinstance(n, ast.Call) and method_of(n)[1] == 'run_in_executor' and any(is_name(a_, 'next') or dotted(a_) == 'next' for a_ in n.args)]
+    ck.need(calls, f'{f.key}: the executor call that pulls the sync source was not found')
+    awaited = {id(n.value) for n in walk_shallow_func(f.node) if isinstance(n, ast.Await)}
+    bad = [c for c in calls if id(c) not in awaited]
+    ck.ob(rid, f, calls[0], not bad, 'every pull of the sync source is awaited where it is started: nothing is in flight while the generator is suspended at its yield' if not bad else f'L{bad[0].lineno}: the pull `{norm_text(bad[0])[:60]}` is started without being awaited in place (kept for later): it runs ahead of the consumer — after an early stop a helper thread is still inside the source, one element beyond those delivered is taken and lost, and the event loop cannot shut its executor down')
+
+
 def run(ck: Checker):
     ck.rule('C05-6', 'async producers are driven by asyncio.run (or an explicit shutdown_asyncgens on every exit): async generators of the upstream chain left suspended by an early stop are finalised (PAIR)', minimum=2)
     ck.rule('C05-1', 'terminal item on every producer exit: exhaustion, stop flag, Exception and StopRequested from source / function / preprocessor (EXITS)', minimum=5)
@@ -678,3 +687,11 @@ def run(ck: Checker):
         check_join_safety(ck, 'C05-4', p)
     check_helpers_released(ck, 'C05-5')
     check_async_driver(ck, 'C05-6')
+    ck.rule('C05-7', 'no source pull is in flight while a stream generator is suspended: the sync-to-async adapter awaits each `run_in_executor(None, next, source)` in the statement that starts it — a pull started ahead of the consumer\'s request is still running in a helper thread after an early stop (one element is taken and lost, the source generator cannot be closed, the default executor cannot shut down)')
+    check_no_prefetch(ck, 'C05-7')
+    ck.rule('C05-8', 'the hand-off queue cannot lose a wake-up: the SingleLane obligations (C01-4, C09-6) decided here, because a lost wake-up leaves the producer parked in put() while the finaliser of buffer / fifo_stream waits for it for ever', minimum=3)
+    from . import c01, c09
+    from .common import QUEUES
+
+    c01.check_singlelane(ck, 'C05-8')
+    c09.check_wait_discipline(ck, 'C05-8', modules=(QUEUES,), minimum=2)
